@@ -1,0 +1,157 @@
+// Copyright (c) 2026 10X Genomics, Inc. All rights reserved.
+
+//go:build verif
+
+package core
+
+import (
+	"bytes"
+	"fmt"
+	"os"
+	"path"
+
+	"github.com/martian-lang/martian/martian/syntax"
+)
+
+// Exports for the external verification harness (property C10): resolving
+// the outputs of a pipeline node (TopNode.resolveMerge / TopNode.getParts)
+// from _outs files written by the harness, without running any job.  This
+// file is only compiled with `-tags verif`.
+
+// VerifC10WriteForkOuts expands the forks of node fqid (Node.expandForks) and
+// writes content(fork id string) as the _outs file of each of its forks; a
+// nil content leaves the fork without outputs.  It returns the fork id
+// strings in the order of Node.forks.
+func (self *Pipestance) VerifC10WriteForkOuts(fqid string,
+	content func(forkId string) []byte) (ids []string, err error) {
+	defer func() {
+		if r := recover(); r != nil {
+			err = fmt.Errorf("panic: %v", r)
+		}
+	}()
+	n := self.getNode().top.allNodes[fqid]
+	if n == nil {
+		return nil, fmt.Errorf("no node %s", fqid)
+	}
+	n.expandForks(true)
+	for _, f := range n.forks {
+		s, err := f.forkId.ForkIdString()
+		if err != nil {
+			s = "ERR(" + err.Error() + ")"
+		}
+		ids = append(ids, s)
+		b := content(s)
+		if b == nil {
+			continue
+		}
+		if err := os.MkdirAll(f.metadata.path, 0o755); err != nil {
+			return ids, err
+		}
+		f.metadata.uncache(OutsFile)
+		if err := os.WriteFile(path.Join(f.metadata.path, "_outs"),
+			b, 0o644); err != nil {
+			return ids, err
+		}
+	}
+	return ids, nil
+}
+
+// VerifC10ResolveOutputs calls Node.resolvePipelineOutputs for the first fork
+// of the pipeline node fqid and returns the outputs as JSON and the text of
+// the error.
+func (self *Pipestance) VerifC10ResolveOutputs(fqid string) (result string, errText string) {
+	defer func() {
+		if r := recover(); r != nil {
+			errText = fmt.Sprintf("panic: %v", r)
+		}
+	}()
+	n := self.getNode().top.allNodes[fqid]
+	if n == nil {
+		return "", "no node " + fqid
+	}
+	var id ForkId
+	if len(n.forks) > 0 {
+		id = n.forks[0].forkId
+	}
+	r, _, err := n.resolvePipelineOutputs(id)
+	if err != nil {
+		errText = err.Error()
+	}
+	if r != nil {
+		var buf bytes.Buffer
+		if m, ok := r.(interface{ EncodeJSON(*bytes.Buffer) error }); ok {
+			if e := m.EncodeJSON(&buf); e != nil {
+				buf.WriteString(" ENCODE-ERROR " + e.Error())
+			}
+		} else if b, e := r.MarshalJSON(); e != nil {
+			buf.WriteString(" ENCODE-ERROR " + e.Error())
+		} else {
+			buf.Write(b)
+		}
+		result = buf.String()
+	}
+	return result, errText
+}
+
+// VerifC10ResolveMergeOver resolves, with the real TopNode.resolve, a
+// hand-built merge of output `out` of the mapped stage node fqid over that
+// node's own call, in a hand-built node tree.  The nodes of a VerifWorld have
+// no table of fork parts (they are not built by NewNode), so for a call with a
+// statically known map source TopNode.getParts takes the branch which
+// enumerates the keys of the source.  (The compiler evaluates such a merge
+// statically, so no compiled binding reaches that branch.)  Every key is
+// resolved against the node's first fork.
+func (w *VerifWorld) VerifC10ResolveMergeOver(fqid, out string) (result string, errText string) {
+	defer func() {
+		if r := recover(); r != nil {
+			errText = fmt.Sprintf("panic: %v", r)
+		}
+	}()
+	n := w.top.allNodes[fqid]
+	if n == nil {
+		return "", "no node " + fqid
+	}
+	stage, ok := n.call.(*syntax.CallGraphStage)
+	if !ok {
+		return "", "not a stage node: " + fqid
+	}
+	if w.top.rt.Config == nil {
+		w.top.rt.Config = new(RuntimeOptions)
+	}
+	call := n.call.Call()
+	var t syntax.Type
+	for _, m := range stage.Callable().GetOutParams().List {
+		if m.Id == out {
+			tid := m.Tname
+			tid.MapDim = 1
+			t = w.top.types.Get(tid)
+		}
+	}
+	if t == nil {
+		return "", "no output " + out
+	}
+	binding := &syntax.MergeExp{
+		Call:      stage,
+		MergeOver: call,
+		Value: &syntax.RefExp{
+			Kind:     syntax.KindCall,
+			Id:       fqid,
+			OutputId: out,
+			Forks: map[*syntax.CallStm]syntax.CollectionIndex{
+				call: dummyForkId,
+			},
+		},
+	}
+	_, r, err := w.top.resolve(binding, t, nil, 1<<20)
+	if err != nil {
+		errText = err.Error()
+	}
+	if r != nil {
+		if b, e := r.MarshalJSON(); e != nil {
+			result = " ENCODE-ERROR " + e.Error()
+		} else {
+			result = string(b)
+		}
+	}
+	return result, errText
+}
